@@ -10,7 +10,7 @@
    inner encodings are the parameter [key_dec]. *)
 From Coq Require Import List NArith ZArith Bool.
 From Verif Require Import lib.Wire c08.Varint c08.Protobuf c08.Digits c08.Base58 c08.SymCrypto
-  c08.Model c08.Spec c08.Proofs c08.Proofs_Env gen.Consts_c08.
+  c08.Model c08.Spec c08.Proofs c08.Proofs_Env c08.Proofs_R2 gen.Consts_c08.
 Import ListNotations.
 Local Open Scope N_scope.
 
@@ -230,6 +230,53 @@ Theorem c08_rsa_size_range :
 Proof. exact rsa_size_range_l. Qed.
 Print Assumptions c08_rsa_size_range.
 
+(* ---- round 2: /p2p form, vouchers, the inlining switch, verify exactness ------------------ *)
+(* IDFromP2PAddr / SplitAddr / AddrInfoFromP2pAddr: the LAST component decides *)
+Theorem c08_p2p_addr_last_component : forall cs code v,
+  id_from_p2p_addr (cs ++ [(code, v)]) = if (code =? P_P2P)%N then Some v else None.
+Proof. exact id_from_p2p_addr_snoc. Qed.
+Print Assumptions c08_p2p_addr_last_component.
+
+(* a relayed address /../p2p/RELAY/p2p-circuit/p2p/TARGET names TARGET; one that ends in
+   /p2p-circuit names nobody *)
+Theorem c08_p2p_addr_circuit : forall cs relay target,
+  id_from_p2p_addr (cs ++ [(P_P2P, relay); (P_CIRCUIT, []); (P_P2P, target)]) = Some target /\
+  id_from_p2p_addr (cs ++ [(P_P2P, relay); (P_CIRCUIT, [])]) = None.
+Proof. exact id_from_p2p_addr_circuit. Qed.
+Print Assumptions c08_p2p_addr_circuit.
+
+Theorem c08_voucher_roundtrip : forall relay peer e c1 d1 c2 d2,
+  mh_decode relay = Some (c1, d1) -> mh_decode peer = Some (c2, d2) ->
+  nlen relay < 2 ^ 64 -> nlen peer < 2 ^ 64 -> e < 2 ^ 64 ->
+  voucher_fields (marshal_voucher relay peer e) = Some (relay, peer, e).
+Proof. exact voucher_roundtrip_l. Qed.
+Print Assumptions c08_voucher_roundtrip.
+
+(* removing the peer field from a voucher payload makes it unacceptable *)
+Theorem c08_voucher_needs_peer : forall relay e, nlen relay < 2 ^ 64 -> e < 2 ^ 64 ->
+  voucher_fields (put_len_field 1 relay ++ put_varint_field 3 e) = None.
+Proof. exact voucher_needs_peer_l. Qed.
+Print Assumptions c08_voucher_needs_peer.
+
+(* ExtractPublicKey is a function of the ID alone: an ID made with inlining on embeds the key
+   and yields it, whatever the switch is at extraction time *)
+Theorem c08_extract_under_inlining_switch : forall inl mx m dg,
+  nlen m <= 2 ^ 31 - 1 -> length dg = 32%nat ->
+  extract_key (id_of_key_flag inl mx m dg) = if inl && (nlen m <=? mx) then ExKey m else ExNoKey.
+Proof. exact extract_key_flag_l. Qed.
+Print Assumptions c08_extract_under_inlining_switch.
+
+(* the monitor's verify-exactness clause (kind 7) accepts every observation of every ideal
+   signature scheme: any key, any message tried against an issued signature value *)
+Theorem c08_monitor_verify_exact :
+  forall (K : Type) (K_eqb : K -> K -> bool), (forall a b, K_eqb a b = true <-> a = b) ->
+  forall (verify : K -> bytes -> bytes -> bool) (origin : bytes -> option (K * bytes)),
+  (forall k m s, verify k m s = true <-> origin s = Some (k, m)) ->
+  forall k m s k2 m2, origin s = Some (k, m) ->
+    monitor7 (boolz (K_eqb k2 k)) m s m2 s (boolz (verify k2 m2 s)) = [].
+Proof. exact monitor7_accepts_ideal_l. Qed.
+Print Assumptions c08_monitor_verify_exact.
+
 (* ---- non-vacuity ------------------------------------------------------------------------------------ *)
 (* a toy ideal scheme: signature value [7] was issued by key 1 on
    makeUnsigned "d" [3;1] [5]; the envelope carrying it is accepted for domain
@@ -285,4 +332,19 @@ Example monitor_rejects_rsa_boundary :
   monitor_case [13; 8192; 0; 2; 0]%Z = [ERR_PROPERTY; 131]%Z.
 Proof. vm_compute. reflexivity. Qed.
 Example monitor_allows_rsa_too_big_rejected : monitor_case [13; 8193; 0; 2; 0]%Z = [].
+Proof. vm_compute. reflexivity. Qed.
+
+(* round 2: the relay's ID for a relayed address, a mutated record handed out by the envelope,
+   a voucher without a peer, a signature that also verifies for the digest of its message *)
+Example monitor_rejects_relay_id :
+  monitor_case [16; 3; 421; 1;7; 290; 0; 421; 1;9;  1; 1;7;  1; 1;9;  1; 1;9]%Z = [ERR_PROPERTY; 161]%Z.
+Proof. vm_compute. reflexivity. Qed.
+Example monitor_rejects_mutated_record :
+  monitor_case [15; 0; 0; 1;5; 0; 1;5; 1;1; 1; 1;6; 1;1; 0; 0; 0; 0]%Z = [ERR_PROPERTY; 151]%Z.
+Proof. vm_compute. reflexivity. Qed.
+Example monitor_rejects_voucher_without_peer :
+  monitor_case [17; 0; 0; 6; 10;2;0;0;24;5;  1; 2;0;0; 0; 0; 5]%Z = [ERR_PROPERTY; 172]%Z.
+Proof. vm_compute. reflexivity. Qed.
+Example monitor_accepts_full_voucher :
+  monitor_case [17; 0; 0; 10; 10;2;0;0;18;2;0;0;24;5;  1; 2;0;0; 2;0;0; 0; 5]%Z = [].
 Proof. vm_compute. reflexivity. Qed.
